@@ -719,6 +719,10 @@ class ListenerRequestHandler(BaseHTTPRequestHandler):
         if cim_error is not None:
             self.send_header("CIMError", cim_error)
         if cim_error_details is not None:
+            # The details are derived from request data and from multi-line
+            # parser messages; a header value must be a single line.
+            cim_error_details = \
+                cim_error_details.replace('\r', ' ').replace('\n', ' ')
             self.send_header("CIMErrorDetails", cim_error_details)
         if headers is not None:
             for header, value in headers:
